@@ -9,7 +9,10 @@ import (
 
 // LoadAdapters loads every module under pkg/adapters (syntax + types, no SSA: hertz/kitex have
 // third-party dependencies that do not type-check with the installed Go).
-func LoadAdapters(root string) ([]*Program, error) {
+func LoadAdapters(root string) ([]*Program, error) { return LoadAdaptersOverlay(root, nil) }
+
+// LoadAdaptersOverlay is LoadAdapters with a go/packages overlay (seeded variants).
+func LoadAdaptersOverlay(root string, overlay map[string][]byte) ([]*Program, error) {
 	dirs, _ := filepath.Glob(filepath.Join(root, "pkg", "adapters", "*", "go.mod"))
 	sort.Strings(dirs)
 	if len(dirs) == 0 {
@@ -25,7 +28,7 @@ func LoadAdapters(root string) ([]*Program, error) {
 			defer wg.Done()
 			sem <- struct{}{}
 			defer func() { <-sem }()
-			p, err := loadAdapter(dir)
+			p, err := loadAdapter(dir, overlay)
 			progs[i], errs[i] = p, err
 		}(i, filepath.Dir(gm))
 	}
@@ -38,8 +41,8 @@ func LoadAdapters(root string) ([]*Program, error) {
 	return progs, nil
 }
 
-func loadAdapter(dir string) (*Program, error) {
-	p, err := LoadProgram(dir, false, nil)
+func loadAdapter(dir string, overlay map[string][]byte) (*Program, error) {
+	p, err := LoadProgram(dir, false, overlay)
 	if err != nil {
 		return nil, err
 	}
